@@ -1,7 +1,7 @@
 (** C12 correspondence + spec search: one case = one frame run through the
     real programs in x/net/bpf's VM by the harness. *)
 From Coq Require Import List ZArith Bool.
-From TR Require Import Lib.Sx Lib.Bytes Bpf.Vm Spec.C12 Generated.BpfProgs.
+From TR Require Import Lib.Sx Lib.Bytes Bpf.Vm Spec.C12 Generated.BpfProgs Pol.SourceHist.
 Import ListNotations.
 Open Scope Z_scope.
 
@@ -33,27 +33,51 @@ Definition check_c12_exact (cfg : list Z) (f : bytes) (impl : list Z) : sx :=
   | _, _ => badcase
   end.
 
-(** histories of installations on one real AF_PACKET source: what the source hands out after the LAST installation is what
-    the last requested filter's field-level spec selects - earlier installations leave no trace *)
-Fixpoint last_spec (l : list sx) : option (list Z) :=
+(** histories of installations on one real AF_PACKET source: the socket model of Pol/SourceHist.v is run over the
+    history (correspondence), and what the source hands out after the LAST installation must be what the last requested
+    filter's field-level spec selects - earlier installations leave no trace (spec; the two agree by
+    SourceHistProofs.captured_last) *)
+Definition d_fspec (x : sx) : option fspec :=
+  match x with
+  | L [A ty; A s; A d; A sp; A dp] =>
+      Some (if ty =? 0 then FsNone else if ty =? 1 then FsIcmp else if ty =? 2 then FsUdp else if ty =? 3 then FsTcp s d sp dp else FsSynack)
+  | _ => None
+  end.
+
+Fixpoint dec_fspecs (l : list sx) : option (list fspec) :=
   match l with
-  | [] => None
-  | [L x] => sx_zs x
-  | _ :: r => last_spec r
+  | [] => Some []
+  | x :: r => match d_fspec x, dec_fspecs r with Some a, Some b => Some (a :: b) | _, _ => None end
   end.
 
 Definition check_c12_hist (specs : list sx) (f : bytes) (cap : Z) : sx :=
-  match last_spec specs with
-  | Some [ty; s; d; sp; dp] =>
-      let want := if ty =? 0 then true else if ty =? 1 then icmp_specb f else if ty =? 2 then udp_specb f
-                  else if ty =? 3 then tcp4_specb s d sp dp f else synack_specb f in
-      let cls := 16 + ty + 8 * Z.min 7 (Z.of_nat (length specs)) in
-      if Bool.eqb (nz cap) want then verdict V_OK cls [] (L []) else verdict V_SPECFAIL cls [7] (of_bool want)
-  | _ => badcase
+  match dec_fspecs specs with
+  | Some fs =>
+      let want := match rev fs with lastf :: _ => selects lastf f | [] => true end in
+      let model := captured fs f in
+      let cls := 16 + 8 * Z.min 7 (Z.of_nat (length specs)) + (if want then 1 else 0) in
+      if negb (Bool.eqb (nz cap) want) then verdict V_SPECFAIL cls [7] (of_bool want)
+      else if Bool.eqb (nz cap) model then verdict V_OK cls [] (L []) else verdict V_DIVERGE cls [] (of_bool model)
+  | None => badcase
+  end.
+
+(** a frame that arrived before the last installation and was still in the socket: after a program has been installed it must
+    not come out (SetBPFAndDrain); after a detach the socket model decides *)
+Definition check_c12_stale (specs : list sx) (f : bytes) (cap : Z) : sx :=
+  match dec_fspecs specs with
+  | Some fs =>
+      let model := stale_captured fs f in
+      let prog_last := match rev fs with FsNone :: _ => false | _ :: _ => true | [] => false end in
+      let cls := 17 + 8 * Z.min 7 (Z.of_nat (length specs)) + (if prog_last then 64 else 0) in
+      if prog_last && nz cap then verdict V_SPECFAIL cls [7; 1] (L [])
+      else if Bool.eqb (nz cap) model then verdict V_OK cls [] (L []) else verdict V_DIVERGE cls [] (of_bool model)
+  | None => badcase
   end.
 
 Definition check_c12 (inp impl : sx) : sx :=
   match inp, impl with
+  | L [A 30; L specs; fr; A 1], L [A cap] =>
+      match sx_bytes fr with Some f => check_c12_stale specs f cap | None => badcase end
   | L [A 30; L specs; fr], L [A cap] =>
       match sx_bytes fr with Some f => check_c12_hist specs f cap | None => badcase end
   | L [A 1; L cfg; fr], L im =>
